@@ -331,6 +331,11 @@ def symmetry(ctx, s: Sib):
     base = {}
     for t_ in chol_tensors(body):
         base[t_] = sym("§L")  # the reshaped Cholesky tensor (its shape arguments are bookkeeping)
+    for t_ in subterms(body):
+        if t_.op == "call" and array_fn(t_) == "arange" and len(call_parts(t_)[1]) == 1 and any(
+                y.op == "attr" and y.args[1] in ("shape", "size") or (y.op == "call" and func_name(y) == "builtins.len")
+                for y in subterms(call_parts(t_)[1][0])):
+            base[t_] = sym("§columns")      # arange(<number of orbitals>): the column labels, however the count is read off
     sw.update(base)
     for label, val in (("new density", body.args[0]), ("eigenvectors", body.args[1])):
         v = strip_wrappers(val)
